@@ -204,6 +204,10 @@ def rule_checker_runs_checks(rep, sc, gt, tc):
 
 
 MUTANTS = [
+    ('aggregate-search-flag-overwritten', 'src/ast/utility/Utils.cpp', '        found_in_agg = found_in_agg || visitExists(cur, [&](const Atom& atom) {', '        found_in_agg = visitExists(cur, [&](const Atom& atom) {', 'R4'),
+    ('counter-type-not-checked', 'src/ast/transform/TypeChecker.cpp', '''    if (!isOfKind(types, TypeAttribute::Signed)) {
+        report.addError("Counter (type mismatch)", counter.getSrcLoc());
+    }''', '''    (void)types;''', None),
     ('apply-skips-error-exit-when-unchanged', 'src/ast/transform/Transformer.cpp', '''    /* Abort evaluation of the program if errors were encountered */
     translationUnit.getErrorReport().exitIfErrors();''', '''    /* Abort evaluation of the program if errors were encountered */
     if (changed) translationUnit.getErrorReport().exitIfErrors();''', 'R1'),
@@ -214,6 +218,102 @@ MUTANTS = [
      'mk<ast::transform::SubsumptionQualifierTransformer>(), mk<ast::transform::MinimiseProgramTransformer>(), mk<ast::transform::SemanticChecker>(),', 'R2'),
     ('exit-status-zero', 'src/include/souffle/utility/../../../reports/ErrorReport.h', 'exit(EXIT_FAILURE);', 'exit(EXIT_SUCCESS);', 'R1'),
 ]
+
+
+def rule_stratification_search(rep, ut):
+    """R4: the stratification check asks `does SOME clause of R negate / aggregate over S?` through two helper searches.  A search flag must
+    be monotone (v = v || .., v |= .., v = true) or the function returns true at the first hit: a plain overwrite inside a callback that is
+    invoked once per aggregator forgets an earlier hit (the cyclic aggregate is then accepted)."""
+    n = 0
+    for name in ('hasClauseWithNegatedRelation', 'hasClauseWithAggregatedRelation'):
+        fs = [f for f in ut.functions if f.name == name and not f.is_lambda]
+        if not fs:
+            rep.analysis_broken('ast utility %s not found' % name)
+            continue
+        f = fs[0]
+        n += 1
+        bools = {m['name'] for m in f.walk() if m['k'] == 'VarDecl' and m.get('t') == 'bool' and m.get('name')}
+        bad = []
+        for m in f.walk():
+            if m['k'] == 'BinaryOperator' and m.get('op') == '=':
+                l, r = [strip(x, casts=True) for x in kids(m)]
+                if l.get('name') in bools:
+                    r0 = r
+                    while r0['k'] in ('ExprWithCleanups', 'ParenExpr') and kids(r0):
+                        r0 = strip(kids(r0)[0], casts=True)
+                    mono = (r0['k'] == 'CXXBoolLiteralExpr' and r0.get('val')) or \
+                           (r0['k'] == 'BinaryOperator' and r0.get('op') == '||' and any(strip(x, casts=True).get('name') == l['name'] for x in kids(r0)))
+                    # an overwrite is harmless only if the function leaves the search at once when it is true (no callback / loop in between)
+                    in_callback = any(a['k'] in ('LambdaExpr', 'ForStmt', 'CXXForRangeStmt', 'WhileStmt') for a in f.ancestors(m))
+                    if not mono and in_callback:
+                        bad.append(m)
+        rep.ob('R4-stratification-search-is-exhaustive', name, not bad, f.loc(bad[0]) if bad else f.where,
+               '' if not bad else 'the search flag `%s` is overwritten inside a callback/loop (line %s): a hit in an earlier aggregator or clause is forgotten, '
+               'so a cyclic dependency through that literal is not reported' % (strip(kids(bad[0])[0], casts=True).get('name'), bad[0].get('l')))
+    rep.floor('R4-search-helpers', n, 2)
+
+
+def rule_negated_atom_types(rep, tc):
+    """R5: for a NEGATED atom no typing constraint is generated, so TypeChecker's own comparison is the only guard: it must compare the
+    argument type with the DECLARED attribute type (identity / equivalence / common constant base), not merely with its kind"""
+    fs = [f for f in tc.functions if f.name == 'visit_' and not f.is_lambda and len(f.d['params']) > 1 and f.d['params'][1]['t'].replace('const ', '').strip(' &').endswith('ast::Atom')]
+    if not fs:
+        rep.analysis_broken('TypeCheckerImpl::visit_(Atom) not found')
+        return
+    f = fs[0]
+    branch = None
+    for m in f.walk():
+        if m['k'] == 'IfStmt' and any(x.get('member') == 'negatedAtoms' or x.get('name') == 'negatedAtoms' for x in walk(kids(m)[0])):
+            parts = dict(zip(m.get('roles', []), m['c']))
+            c = strip(parts['cond'], casts=True)
+            positive_first = c['k'] == 'BinaryOperator' and c.get('op') == '==' and any(str(strip(x, casts=True).get('cv', strip(x, casts=True).get('val'))) == '0' for x in kids(c))
+            branch = parts.get('else') if positive_first else parts.get('then')
+    if branch is None:
+        rep.analysis_broken('TypeCheckerImpl::visit_(Atom): branch for negated atoms not found')
+        return
+    attr = {m['name'] for m in f.walk() if m['k'] == 'VarDecl' and 'analysis::Type' in m.get('t', '') and m.get('name')}
+    exact = False
+    for m in walk(branch):
+        if m['k'] in ('BinaryOperator', 'CXXOperatorCallExpr') and m.get('op') == '==':
+            names = {x.get('name') for x in walk(m) if x['k'] == 'DeclRefExpr'}
+            if names & attr:
+                exact = True
+        if is_call(m, 'areEquivalentTypes') and any(x.get('name') in attr for x in walk(m) if x['k'] == 'DeclRefExpr'):
+            exact = True
+    rep.ob('R5-negated-atom-type-identity', 'TypeCheckerImpl::visit_(Atom)/negated', exact, f.loc(branch),
+           '' if exact else 'the argument types of a negated atom are no longer compared with the declared attribute type itself: e.g. two unrelated '
+           'ADTs (same kind) are accepted in !r(x)')
+
+
+ARG_EXCEPT = {'UnnamedVariable': 'matches anything: takes the type its position requires', 'Variable': None}
+
+
+def rule_argument_kinds(rep, tc):
+    """R6: TypeCheckerImpl has a check (visit_) for every concrete kind of ast::Argument -- arguments whose type set comes out empty are skipped
+    by the atom check as `reported later`, so a kind without its own check is never reported at all"""
+    recs = {r['qname']: r for r in tc.records if r['qname'].startswith('souffle::ast::') and r['qname'].count('::') == 2}
+    def is_arg(q, seen=()):
+        if q == 'souffle::ast::Argument':
+            return True
+        return any(is_arg(b['qname'], seen + (q,)) for b in recs.get(q, {}).get('bases', []) if b['qname'] not in seen)
+    args = {q for q in recs if is_arg(q)}
+    bases = {b['qname'] for q in args for b in recs[q].get('bases', [])}
+    leaves = sorted(q.split('::')[-1] for q in args if q not in bases)
+    if len(leaves) < 12:
+        rep.analysis_broken('ast::Argument hierarchy: only %d concrete kinds found (%s)' % (len(leaves), leaves))
+        return
+    handled = set()
+    for f in tc.functions:
+        if f.name == 'visit_' and f.d.get('cls') == 'TypeCheckerImpl' and len(f.d['params']) > 1:
+            handled.add(f.d['params'][1]['t'].replace('const ', '').strip(' &').split('::')[-1])
+    for leaf in leaves:
+        if leaf in ARG_EXCEPT and ARG_EXCEPT[leaf]:
+            continue
+        ok = leaf in handled
+        rep.ob('R6-type-checker-covers-argument-kinds', leaf, ok, 'src/ast/transform/TypeChecker.cpp',
+               '' if ok else 'TypeCheckerImpl has no check for ast::%s: used in a column of another type it is accepted (its type set is empty and the atom '
+               'check defers to a report that never comes)' % leaf)
+    rep.floor('R6-argument-kinds', len(leaves), 12)
 
 
 def analyse(rep):
@@ -229,6 +329,12 @@ def analyse(rep):
     rule_driver(rep, md)
     rule_pipeline(rep, md)
     rule_checker_runs_checks(rep, sc, gt, tc)
+    ut, tc2 = facts.extract([('src/ast/utility/Utils.cpp', r'ast/utility/Utils\.cpp$', r'hasClauseWith'),
+                             ('src/ast/transform/TypeChecker.cpp', r'transform/TypeChecker\.cpp$|src/ast/[A-Za-z]+\.h$', r'TypeCheckerImpl::visit_')])
+    rep.add_units([ut, tc2])
+    rule_stratification_search(rep, ut)
+    rule_negated_atom_types(rep, tc2)
+    rule_argument_kinds(rep, tc2)
 
 
 def run(tier='quick'):
